@@ -209,16 +209,26 @@ impl BlobStore for PlainBlobStore {
         let id = self.next_record_id();
         let path = self.file_path(id);
 
-        let mut file = File::create(&path).map_err(|e| {
-            ZiporaError::io_error(format!("Failed to create blob file {:?}: {}", path, e))
+        // Write under a temporary name that does not parse as a record ID and
+        // rename it once it is complete and synced, so that an interrupted put
+        // never leaves a half-written file that would be served as a record.
+        let tmp_path = self.base_dir.join(format!("{}.tmp", id));
+
+        let mut file = File::create(&tmp_path).map_err(|e| {
+            ZiporaError::io_error(format!("Failed to create blob file {:?}: {}", tmp_path, e))
         })?;
 
         file.write_all(data).map_err(|e| {
-            ZiporaError::io_error(format!("Failed to write blob file {:?}: {}", path, e))
+            ZiporaError::io_error(format!("Failed to write blob file {:?}: {}", tmp_path, e))
         })?;
 
         file.sync_all().map_err(|e| {
-            ZiporaError::io_error(format!("Failed to sync blob file {:?}: {}", path, e))
+            ZiporaError::io_error(format!("Failed to sync blob file {:?}: {}", tmp_path, e))
+        })?;
+        drop(file);
+
+        fs::rename(&tmp_path, &path).map_err(|e| {
+            ZiporaError::io_error(format!("Failed to rename blob file {:?} to {:?}: {}", tmp_path, path, e))
         })?;
 
         self.stats.record_put(data.len());
